@@ -24,11 +24,16 @@ EXPLANATION = (
     "wait_for_event coroutine on generated snapshots), serde ops (real to_serialized -> JSON -> from_serialized twice), "
     "reducer/runner correspondence. Search: live wait workflows (duplicate, non-matching, early/late responses, timeouts, 1..2 "
     "workers) incl. snapshot -> JSON -> resume at random points; per-wait completion counts, delivered event vs request, "
-    "reducer-level waiter facts on the real ticks."
+    "reducer-level waiter facts on the real ticks. Default waiter ids: a naming table (type, requirement) -> id, accepted by "
+    "the driver only if injective; theorems: different requests get different ids, a default-id wait returns an event that "
+    "satisfies ITS request and otherwise registers exactly its request; WE ops without waiter id on the real coroutine; live "
+    "family wait_multi (waits of one step that differ only in a requirement value) with per-wait rules stated from the step "
+    "bodies' requests (returned event, announced once, waits before it returns, resumes with its reply)."
 )
 ASSUMPTIONS = suite.ENGINE_ASSUMPTIONS + [
     "requirements are modelled as one optional equality on the field k (the code compares arbitrary dict items with getattr/==)",
-    "a waiter id identifies one wait of one step; two concurrent invocations of a step sharing the default waiter id overwrite each other's waiter (outside the property: it states 'at most once')",
+    "a waiter id identifies one wait of one step; two concurrent invocations of a step that make the SAME request (same explicit id, or no id and the same type and requirements) share one waiter and overwrite each other's (outside the property: it states 'at most once'); the per-wait rules skip such shared labels",
+    "default waiter names (text of the awaited class and of the requirements dict) are abstracted to numbers by a table built in harness/engine/enc.py from the documented format for requirement values 0..5; the model takes the table as given and requires it to be injective",
 ]
 
 
@@ -247,20 +252,33 @@ def _resume_runs(env: Env, out: Outcome, n: int, extra: list[dict], n_multi: int
                                                 f"waiters that lost their requirements in the snapshot: {need}; the resumed run first reduced re-pings for {got} only: "
                                                 f"the others stay registered with requirements={{}} and accept any event of the awaited type", case))
         vs2 = monitors.mon_c10(tr2, earlier_users=monitors.c10_waiter_users(tr1))
+        # the rehydration window, seen on the ticks: a waiter that still lacks its requirements (its step's re-pinged replay has
+        # not re-registered it yet) is resolved by an incoming event -- that resolution queues a second replay of its invocation
+        from workflows.runtime.types import ticks as _T2
         doubled: set = set()
+        for c in tr2.calls:
+            if c.kind == "reduce" and c.after is not None and isinstance(c.tick, _T2.TickAddEvent) and c.caller in ("run", "_process_tick"):
+                for nm, ws in c.before.workers.items():
+                    for w in ws.collected_waiters:
+                        if w.has_requirements and not w.requirements and w.resolved_event is None and not w.timed_out:
+                            now_w = next((x for x in c.after.workers[nm].collected_waiters if x.waiter_id == w.waiter_id), None)
+                            if now_w is not None and now_w.resolved_event is not None:
+                                doubled.add((nm, getattr(w.event, "uid", None)))
         for v in vs2:
             v.replay = case
-            if v.signature == "C10/resumed_more_than_once" and any(f"'{nm}'" in v.what and f"'{wid}'" in v.what for nm, wid in rehydrated if (nm, wid) in rehydrated):
+            m = getattr(v, "meta", None)
+            if v.signature == "C10/resumed_more_than_once" and (any(f"'{nm}'" in v.what and f"'{wid}'" in v.what for nm, wid in rehydrated if (nm, wid) in rehydrated)
+                                                                 or (m and (m["step"], m["uid"]) in doubled)):
                 # the waiter lost its requirements in the snapshot: the step is re-pinged on resume, and an event that
-                # resolves the waiter before that replay has run queues a second replay (same root as F30)
+                # resolves the waiter before that replay has run queues a second replay (same root as F30); the surplus replay
+                # runs the whole body again, also through the later waits of that invocation
                 v.signature = "C10/rehydration_window_double_replay"
-                m = getattr(v, "meta", None)
                 if m:
                     doubled.add((m["step"], m["uid"]))
         for v in vs2:
             m = getattr(v, "meta", None)
             if v.signature == "C10/waiter_event_not_once:per_wait:repeated" and m and (m["step"], m["uid"]) in doubled:
-                # the surplus replay of that invocation runs its body again: waits it had finished are registered (and announced) anew
+                # ... waits it had finished (waiter deleted on completion) are registered, and announced, anew
                 v.signature = "C10/rehydration_window_double_replay"
             out.violations.append(v)
         # a waiter whose timeout had fired before the snapshot must still raise after resume
@@ -289,7 +307,7 @@ def _resume_runs(env: Env, out: Outcome, n: int, extra: list[dict], n_multi: int
 
 def run(env: Env) -> Outcome:
     out = Outcome()
-    out.rule = ("WE: (snapshot waiters, waiter id, type, requirement, timeout) tuples on the real coroutine; serde: generated broker states; "
+    out.rule = ("WE: (snapshot waiters, waiter id or none, type, requirement, timeout) tuples on the real coroutine; serde: generated broker states; "
                 "live: wait-family and general workflows under random schedules; resume: snapshot_stop at a random quiet point, resume from JSON; "
                 "non-trivial = wait returned/raised, state had waiters or in-progress work, run had waiters at the snapshot; distinct by op line / (spec, schedule)")
     corpus = suite.load_corpus("C10")
